@@ -63,8 +63,8 @@ impl<T: From<String>> syn::parse::Parse for Separatable<T> {
             serialize   = Some(l.value().into());
             deserialize = Some(l.value().into());
 
-        } else if input.peek(token::Brace) {
-            let b; syn::braced!(b in input);
+        } else if input.peek(token::Paren) {
+            let b; syn::parenthesized!(b in input);
             while let Ok(i) = b.parse::<Ident>() {
                 let _ = b.parse::<token::Eq>()?;
                 let l = b.parse::<LitStr>()?;
@@ -94,7 +94,7 @@ where
         match (&self.serialize, &self.deserialize) {
             (None,    None   )           => Ok(None),
             (Some(s), None   )           => Ok(Some((self.span.clone(), s))),
-            (None,    Some(d))           => Ok(Some((self.span.clone(), d))),
+            (None,    Some(_))           => Ok(None/* only the name to read is changed, the written one stays */),
             (Some(s), Some(d)) if s == d => Ok(Some((self.span.clone(), s))),
             _ => Err(syn::Error::new(
                 self.span.clone(), "#[derive(Schema)] doesn't support \
